@@ -136,6 +136,7 @@ type chanModel struct {
 	pendingVoid bool
 	lastDeleteStep int
 	hadConsumer bool
+	VoidAt      time.Time
 	Unordered   bool // a consumer with unbounded output buffering: receipt order is not send order
 	discarded   map[string]int // pub key -> step at which the discard was acknowledged
 	discardedAt map[string]time.Time
@@ -218,6 +219,8 @@ type qWorld struct {
 	epoch    int // settle epoch: operations between two settles are concurrent
 	badRdy   []*consumer
 	badReq   []*consumer
+	stolenAtExit int64
+	readyAtExit  map[string]bool
 	burstOps []Op
 	lastStats *statsDoc
 }
@@ -1073,6 +1076,7 @@ func (w *qWorld) topicUncertain(topic string) bool {
 // voidChannel applies an acknowledged empty (deleted=false) or delete.
 func (w *qWorld) voidChannel(c *chanModel, deleted bool, burst bool) {
 	c.Epoch++
+	c.VoidAt = time.Now()
 	for _, mc := range c.msgs {
 		for _, d := range mc.dels {
 			if d.Answer == "" || !d.AnsKnown {
